@@ -375,6 +375,14 @@ func rulesC05(c *Ctx) {
 	}
 
 	// ---- (e) WTF restricted to ledger setters in staking handlers
+	ledgerWriteThenFail(c, "C05.wtf", func(wd string) bool {
+		return strings.HasPrefix(wd, pkStakeState+".") || strings.HasPrefix(wd, "consensus/cometbft/apps/staking.")
+	}, "a transaction can fail after this ledger write (not rolled back)", "no transaction handler has a failing exit after a staking ledger write")
+}
+
+// ledgerWriteThenFail: the write-then-fail analysis (wtf.go) restricted to the writes selected by sel, reported under
+// the given rule (shared by C05 and C15).
+func ledgerWriteThenFail(c *Ctx, rule string, sel func(writeDesc string) bool, failText, okText string) {
 	w := newWTF(c.P)
 	for k, v := range c.Table("wtf_storageonly") {
 		w.storageOnly[k] = v
@@ -393,7 +401,7 @@ func rulesC05(c *Ctx) {
 						continue
 					}
 					wd := callDesc(lf.Wit.Write)
-					if !strings.HasPrefix(wd, pkStakeState+".") && !strings.HasPrefix(wd, "consensus/cometbft/apps/staking.") {
+					if !sel(wd) {
 						continue
 					}
 					k := fname(lf.Fn) + " " + wd
@@ -401,14 +409,14 @@ func rulesC05(c *Ctx) {
 						continue
 					}
 					keys = append(keys, k)
-					c.Fail("C05.wtf", k, c.P.InstrPos(lf.Wit.Fail), "a transaction can fail after this ledger write (not rolled back): "+strings.Join(lf.Text, " → "))
+					c.Fail(rule, k, c.P.InstrPos(lf.Wit.Fail), failText+": "+strings.Join(lf.Text, " → "))
 				}
 			}
 		}
 	}
 	sort.Strings(keys)
 	if len(keys) == 0 {
-		c.OK("C05.wtf", "no-ledger-write-then-fail", "", "no transaction handler has a failing exit after a staking ledger write")
+		c.OK(rule, "no-ledger-write-then-fail", "", okText)
 	}
 }
 
